@@ -18,8 +18,8 @@ RULE = ('real txtorcon.launch() on a fake reactor (MemoryReactorClock + spawnPro
         'stdout chunks (the control-listener line whole, split at a random offset, or absent), stderr output, the connection attempt succeeding or '
         'failing, each step of the control connection (protocol bootstrap, SETEVENTS, TAKEOWNERSHIP, RESETCONF __OwningControllerProcess, attaching '
         'the configuration) acknowledged or rejected, BOOTSTRAP progress events (10..100) on any connection, the timeout, process exit with a code or '
-        'a signal, further when_connected() calls at any position. quick: 600 random sequences of 4..14 operations; thorough: 12000 random + every '
-        'permutation of a 7-operation multiset x 2 directory modes. Compared after every operation: connection attempts, TERM / loseConnection, '
+        'a signal, further when_connected() calls at any position, in particular after a second outcome-producing input. quick: 600 random sequences of 4..14 operations; thorough: 12000 random + every '
+        'permutation of an 8-operation multiset (incl. a late when_connected) x 2 directory modes. Compared after every operation: connection attempts, TERM / loseConnection, '
         'command words per connection, every when_connected result, progress callbacks, directories removed, cancellation of the timeout; at the end '
         'the result of launch() itself. non-trivial = a connection reached SETEVENTS and at least one of timeout/exit/100% occurred; distinct = cases')
 TRUSTED = ["no real process, signal or reactor shutdown trigger (partial): the fake transport records signalProcess/loseConnection; the fake Tor's "
@@ -219,7 +219,7 @@ def canon_steps(steps):
 WORDS = {'events': 'SETEVENTS', 'take': 'TAKEOWNERSHIP', 'reset': 'RESETCONF', 'attach-setup': 'SETEVENTS', 'attach-launch': 'SETEVENTS'}
 
 
-def spec_trace(c):
+def spec_trace(c, attach_rejections=None):
     """the statement, read as a machine: which effects each operation must have.  A control connection answers one
     command at a time (C01), so what is queued behind an unanswered command reaches the wire when that one is answered."""
     stdout = ''
@@ -257,7 +257,7 @@ def spec_trace(c):
                     conns[latest]['after_boot'] = True
                 else:
                     enqueue(latest, 'attach-launch', o)
-    for op in c['ops']:
+    for op_index, op in enumerate(c['ops']):
         o = []
         k = op[0]
         if k == 'out':
@@ -287,6 +287,8 @@ def spec_trace(c):
                 if cn['queue'] and cn['queue'][0] in WORDS:
                     o.append('cmd:%d:%s' % (op[1], WORDS[cn['queue'][0]]))
                 ok = op[2]
+                if not ok and item in ('attach-setup', 'attach-launch') and attach_rejections is not None:
+                    attach_rejections.append(op_index)
                 if item == 'attach-launch':
                     pass
                 elif not ok:
@@ -373,6 +375,18 @@ def run_cases(cases, drv, tier):
     return res
 
 
+def within_h(c):
+    """H: the attachment of the configuration is not rejected — a rejection that would land on it is turned into an acknowledgement"""
+    for _ in range(20):
+        hits = []
+        spec_trace(c, hits)
+        if not hits:
+            return c
+        for i in hits:
+            c['ops'][i] = [c['ops'][i][0], c['ops'][i][1], True]
+    return c
+
+
 def chunks(rng):
     r = rng.random()
     if r < 0.35:
@@ -423,9 +437,13 @@ def gen_cases(rng, tier):
             seq.insert(rng.randrange(len(seq) + 1), e)
         if rng.random() < 0.3:
             rng.shuffle(seq)
-        yield {'user_dir': rng.random() < 0.4, 'timeout': rng.random() < 0.8, 'kill': rng.random() < 0.8, 'ops': seq}
+        # late inputs that would produce an outcome again, each followed by a caller asking anew: the answer must be the first outcome
+        for _ in range(rng.choice([0, 1, 1, 2])):
+            seq.append(rng.choice([['exit', rng.choice([0, 1, None])], ['timeout'], ['prog', 0, 100]]))
+            seq.append(['when'])
+        yield within_h({'user_dir': rng.random() < 0.4, 'timeout': rng.random() < 0.8, 'kill': rng.random() < 0.8, 'ops': seq})
     if tier != 'quick':
-        multiset = [['out', LINE], ['conn', 0, True], ['ack', 0, True], ['ack', 0, True], ['prog', 0, 100], ['timeout'], ['exit', 0]]
+        multiset = [['out', LINE], ['conn', 0, True], ['ack', 0, True], ['ack', 0, True], ['prog', 0, 100], ['timeout'], ['exit', 0], ['when']]
         seen = set()
         for perm in itertools.permutations(range(len(multiset))):
             key = tuple(str(multiset[i]) for i in perm)
